@@ -99,6 +99,9 @@ type FuncContract struct {
 	Extern   bool
 	Params   []QVar // for extern/spec
 	Results  []QVar
+	// Guards: static guard clauses (guards.go)
+	Guards  []*GuardClause
+	Callers []*CallersClause
 	// MoreFiles: further contract files that add clauses to this function
 	MoreFiles []string
 }
@@ -137,6 +140,7 @@ type ContractSet struct {
 	Axioms []*Axiom
 	Types  map[string]*TypeContract
 	Files  []string
+	Lemmas []*Lemma
 	// mechanical scan results
 	Trusted []string
 }
@@ -146,7 +150,7 @@ func NewContractSet() *ContractSet {
 }
 
 var clauseKeywords = map[string]bool{
-	"func": true, "extern": true, "spec": true, "axiom": true, "type": true,
+	"func": true, "extern": true, "spec": true, "axiom": true, "type": true, "lemma": true, "guarded": true, "guarded_where": true, "go_inline": true, "static_only": true, "only_callers": true, "solver_budget": true, "exact_strings": true, "preserves": true,
 	"requires": true, "ensures": true, "loop": true, "nullable": true, "at": true,
 	"ghost": true, "assigns": true, "modular": true, "inline": true, "trusted": true,
 	"mode": true, "alloc_bound": true, "pure": true, "protected_by": true, "immutable": true,
@@ -323,6 +327,17 @@ func (cs *ContractSet) ParseContractFile(path string, pkgPath string) error {
 			sf.File, sf.Line, sf.Pkg = path, l.no, pkgPath
 			cs.Specs[sf.Name] = sf
 			lastSpec = sf
+		case "lemma":
+			// lemma [tag] forall x T, ... :: body   (proved by SMT; see bmain.go RunLemma)
+			cur, curType = nil, nil
+			c, err := mkClause(rest)
+			if err != nil {
+				return err
+			}
+			if c.Tag == "" {
+				return fmt.Errorf("%s:%d: lemma needs a [tag]", path, l.no)
+			}
+			cs.Lemmas = append(cs.Lemmas, &Lemma{Tag: c.Tag, Clause: c, Pkg: pkgPath})
 		case "axiom":
 			cur, curType = nil, nil
 			k := strings.Index(rest, ":")
@@ -437,6 +452,11 @@ func (cs *ContractSet) ParseContractFile(path string, pkgPath string) error {
 					}
 					ac.Clause = c
 				case "stop":
+					// "stop [Cnn]": the cut applies only while property Cnn is being checked (contract blocks of one
+					// function are merged across properties; an unscoped stop cuts every property's exploration)
+					if t := strings.Trim(strings.TrimSpace(r3), "[]"); t != "" {
+						ac.Clause.Tag = t
+					}
 				default:
 					return fmt.Errorf("%s:%d: unknown at-kind %q", path, l.no, w)
 				}
@@ -458,6 +478,30 @@ func (cs *ContractSet) ParseContractFile(path string, pkgPath string) error {
 					cur.Assigns = append(cur.Assigns, strings.TrimSpace(p))
 				}
 				cur.Flags["assigns"] = "1"
+			case "preserves":
+				// trusted frame: the function may write anything EXCEPT the listed heap regions (bmain.go)
+				if cur.Flags["preserves"] != "" {
+					cur.Flags["preserves"] += ", "
+				}
+				cur.Flags["preserves"] += strings.TrimSpace(rest)
+				cs.Trusted = append(cs.Trusted, fmt.Sprintf("trusted frame of %s: preserves %s (%s:%d)", cur.Key, strings.TrimSpace(rest), path, l.no))
+			case "only_callers":
+				cc, err := parseCallersClause(rest)
+				if err != nil {
+					return fmt.Errorf("%s:%d: %v", path, l.no, err)
+				}
+				cur.Callers = append(cur.Callers, cc)
+			case "static_only":
+				// static_only Cnn [Cmm ...]: while one of these properties is checked, only the static clauses of this
+				// function are evaluated (no symbolic execution of its body); other properties are unaffected
+				cur.Flags["static_only"] = strings.TrimSpace(cur.Flags["static_only"] + " " + rest)
+			case "guarded", "guarded_where":
+				g, err := parseGuardClause(rest, path, l.no)
+				if err != nil {
+					return fmt.Errorf("%s:%d: %v", path, l.no, err)
+				}
+				g.Selective = word == "guarded_where"
+				cur.Guards = append(cur.Guards, g)
 			case "trusted":
 				cur.Flags["trusted"] = "1"
 				cs.Trusted = append(cs.Trusted, fmt.Sprintf("trusted contract %s (%s:%d)", cur.Key, path, l.no))
